@@ -16,6 +16,8 @@ import (
 	"fmt"
 	"github.com/WICG/webpackage/go/zz_verif/gen"
 	"io"
+	"net/http"
+	"net/http/httptest"
 	"net/url"
 	"os"
 	"os/exec"
@@ -995,6 +997,98 @@ func run20(r *mon.Run) {
 		r.Distinct(fmt.Sprintf("two-origins|%s|chains%d+%d|%s", ver, len(mats[0].certs), len(mats[1].certs), outcome))
 		os.Remove(wbn)
 		os.Remove(hp)
+	}
+
+	// ---- (F) gen-bundle -URLList: resources fetched from a loopback server, the list file formatted the ways text files
+	// are (with and without a final newline, CRLF line ends, comments, blank lines, trailing blanks, a repeated URL)
+	if r.Shard == 0 {
+		bodies := map[string][]byte{}
+		srv := httptest.NewServer(http.HandlerFunc(func(w http.ResponseWriter, q *http.Request) {
+			if b, ok := bodies[q.URL.Path]; ok {
+				w.Header().Set("Content-Type", "text/plain")
+				w.Write(b)
+				return
+			}
+			http.NotFound(w, q)
+		}))
+		g := r.Rand("urllist", 0)
+		var urls []string
+		for k := 0; k < 4; k++ {
+			pth := fmt.Sprintf("/res/%d", k)
+			bodies[pth] = []byte(fmt.Sprintf("resource %d %s", k, strings.Repeat("z", g.Intn(100))))
+			urls = append(urls, srv.URL+pth)
+		}
+		lists := map[string]string{
+			"lf-terminated":         strings.Join(urls, "\n") + "\n",
+			"no-final-newline":      strings.Join(urls, "\n"),
+			"crlf":                  strings.Join(urls, "\r\n") + "\r\n",
+			"crlf-no-final-newline": strings.Join(urls, "\r\n"),
+			"comments-and-blanks":   "# a comment\n\n" + urls[0] + "  \n\n#" + urls[1] + "\n" + urls[1] + "\n\t" + urls[2] + "\n" + urls[0] + "\n" + urls[3],
+			"single-url-no-newline": urls[2],
+		}
+		var lnames []string
+		for n := range lists {
+			lnames = append(lnames, n)
+		}
+		sort.Strings(lnames)
+		for _, ln := range lnames {
+			content := lists[ln]
+			want := map[string][]byte{}
+			for _, line := range strings.FieldsFunc(content, func(c rune) bool { return c == '\n' || c == '\r' }) {
+				line = strings.TrimSpace(line)
+				if line == "" || line[0] == '#' {
+					continue
+				}
+				u, _ := url.Parse(line)
+				want[line] = bodies[u.Path]
+			}
+			lf := filepath.Join(scratch, "urls-"+ln+".txt")
+			os.WriteFile(lf, []byte(content), 0o644)
+			out := filepath.Join(scratch, "urls-"+ln+".wbn")
+			res := tool("gen-bundle", nil, "-URLList", lf, "-version", "b2", "-o", out)
+			key := "urllist:" + ln
+			det := map[string]any{"list": ln, "list_file": content}
+			outcome := "urllist:ok"
+			if res.rc != 0 {
+				outcome = "urllist:GEN-BUNDLE-FAILED"
+				violation(key+":gen", "gen-bundle -URLList failed: "+tail(res.out), det)
+			} else {
+				wb, _ := os.ReadFile(out)
+				if d := tool("dump-bundle", nil, "-i", out); d.rc != 0 {
+					outcome = "urllist:DUMP-BUNDLE-REJECTS"
+					violation(key+":dump", "dump-bundle rejects the bundle made from a URL list: "+tail(d.out), det)
+				}
+				p, e := rbundle.Extract(wb)
+				bad := ""
+				if e != nil {
+					bad = "independent parser: " + e.Error()
+				} else {
+					got := map[string][]byte{}
+					for _, ex := range p.Exchanges {
+						got[ex.URL] = ex.Body
+					}
+					for u, b := range want {
+						if gb, ok := got[u]; !ok {
+							bad = fmt.Sprintf("no exchange for the listed URL %s (%d exchanges in the bundle, %d URLs listed)", u, len(got), len(want))
+						} else if !bytes.Equal(gb, b) {
+							bad = "body of " + u + " differs from what the server sent"
+						}
+					}
+					if len(got) != len(want) && bad == "" {
+						bad = fmt.Sprintf("%d exchanges for %d listed URLs", len(got), len(want))
+					}
+				}
+				if bad != "" {
+					outcome = "urllist:CONTENT-WRONG"
+					violation(key+":audit", "gen-bundle -URLList ("+ln+"): "+bad, det)
+				}
+			}
+			r.Eval(outcome)
+			r.Distinct("urllist|" + ln + "|" + outcome)
+			os.Remove(lf)
+			os.Remove(out)
+		}
+		srv.Close()
 	}
 
 	// ---- (D) gen-signedexchange -> dump-signedexchange -verify
